@@ -7,6 +7,7 @@ over truthful leaves, any row list).
 -/
 import DafRel.Lemmas.FinishApply
 import DafRel.Bridge.Kernel
+import DafRel.Bridge.Ops
 
 namespace DafRel.Props.C05
 
@@ -91,6 +92,16 @@ theorem bridge_Slice_then (s1 : Nat) (e1 : Option Nat) (s2 : Nat) (e2 : Option N
 theorem bridge_Slice_new (s : Int) (e : Option Int) :
     Gen.Slice_new (.int s) (Bridge.optI e) = Bridge.sliceObj (UOp.mkSlice s e) :=
   Bridge.Slice_new_eq s e
+
+/-- The `simplify` methods of Projection, Selection, Slice and Sort, as translated from the current
+Python source on this run (translator T-e), are the model's `UOp.simplify`. -/
+theorem bridge_simplify_methods (up : UOp) :
+    (∀ c, Gen.Projection_simplify c up = (UOp.proj c).simplify up) ∧
+    (∀ p, Gen.Selection_simplify p up = (UOp.sel p).simplify up) ∧
+    (∀ s e, Gen.Slice_simplify s e up = (UOp.slice s e).simplify up) ∧
+    (∀ ts, Gen.Sort_simplify ts up = (UOp.sort ts).simplify up) :=
+  ⟨fun c => Bridge.Projection_simplify_eq c up, fun p => Bridge.Selection_simplify_eq p up,
+   fun s e => Bridge.Slice_simplify_eq s e up, fun ts => Bridge.Sort_simplify_eq ts up⟩
 
 /-! ### Non-vacuity -/
 
